@@ -3,7 +3,7 @@
    produce exactly the implementation's bytes after each step of a history (same splice, same insertion position, same
    count patch), the same 'exist' flag and the same error class.
    Case: type, bytes, number of ops, then per op: kind (1 set, 2 unset), path, sub type, sub bytes, impl err (0 nil,
-   1 error, 3 panic), impl exist, impl bytes after the op. *)
+   1 error, 3 panic), impl exist, impl bytes after the op, flags (bit 0: Value API, bit 1: all field steps declared). *)
 From Coq Require Import ZArith List Bool.
 From DG Require Import CaseFormat ProtoWireRef ThriftWire ThriftGeneric ThriftEdit ThriftEditBytes Check01.
 Import ListNotations.
@@ -17,7 +17,7 @@ Definition inserted_elsewhere (t : Z) (cur : list Z) (p : list pstep) (st : Z) (
   match get_by_path t res 0 p with
   | GFound t' s e =>
       (t' =? st) && bytes_eqb (bfirstn (e - s) (bskipn s res)) sb &&
-      match unset_by_path t res p with UbOk b => bytes_eqb b cur | _ => false end
+      match unset_by_path true t res p with UbOk b => bytes_eqb b cur | _ => false end
   | _ => false
   end.
 
@@ -26,17 +26,20 @@ Definition inserted_elsewhere (t : Z) (cur : list Z) (p : list pstep) (st : Z) (
 Definition spec_agrees (t : Z) (cur : list Z) (o : eop) : bool :=
   match decode_all t cur with
   | Some v =>
-      if wf v && op_compat v o && op_dom v o then
-        let '(t', b') := bytes_step (t, cur) o in
+      if wf v && op_dom true v o && op_compat v o then     (* op_dom first: it walks raw keys with bounds checks before decoding them *)
+        let '(t', b') := bytes_step true (t, cur) o in
         let v' := ast_step true v o in (t' =? type_of v') && bytes_eqb b' (encode v')
       else true
   | None => true
   end.
 
-(* known deviation 408: deleteChild compares the raw bytes of Path.ToRaw with the raw key bytes of a map WITHOUT checking that
-   the step is of the map's key kind: a string-key step on a map with another key type (for GetByPath / SetByPath an error,
-   for the spec a path that addresses nothing) removes the entry whose key bytes happen to equal the 4-byte length + bytes of
-   the string (UnsetByPath(StrKey("")) removes key 0 of a map<i32,_>), nil error.  Selector: *)
+(* finding 408 (repaired in /repo by 384585a; the model's [fx = true] is the repaired deleteChild): BEFORE the repair deleteChild
+   compared the raw bytes of Path.ToRaw with the raw key bytes of a map without checking that the step is of the map's key
+   kind: a string-key step on a map with another key type (for GetByPath / SetByPath an error, for the spec a path that
+   addresses nothing) removed the entry whose key bytes happen to equal the 4-byte length + bytes of the string
+   (UnsetByPath(StrKey("")) removed key 0 of a map<i32,_>), nil error.  If that behaviour comes back it is reported under
+   its id: the implementation's bytes equal the result of the model WITHOUT the repair ([fx = false]) where the model with
+   the repair reports an error.  Selector: *)
 Definition is_408 (t : Z) (cur : list Z) (p : list pstep) : bool :=
   match decode_all t cur with
   | Some v =>
@@ -50,8 +53,12 @@ Definition is_408 (t : Z) (cur : list Z) (p : list pstep) : bool :=
   end.
 
 Definition step_403 (idx t : Z) (cur : list Z) (kind : Z) (p : list pstep) (st : Z) (sb : list Z)
-                    (err ex : Z) (res : list Z) : verdict :=
+                    (err ex : Z) (res : list Z) (flags : Z) : verdict :=
   if is_nil p then VBad 94 [] else
+  (* Value API through a field the IDL does not declare: the descriptor guard answers before the algorithm runs (set: an error;
+     unset consults the descriptor for the parent only); the buffer is unchanged *)
+  if Z.testbit flags 0 && negb (Z.testbit flags 1) then
+    expect (700 + idx) (((err =? 1) || (kind =? 2)) && bytes_eqb res cur) [FZ 1; FB cur] else
   if kind =? 1 then
     let internal := match decode_all st sb with Some x => spec_agrees t cur (OSet p x) | None => true end in
     if negb internal then VBad 50 [] else
@@ -64,19 +71,24 @@ Definition step_403 (idx t : Z) (cur : list Z) (kind : Z) (p : list pstep) (st :
     end
   else if kind =? 2 then
     if negb (spec_agrees t cur (OUnset p)) then VBad 51 [] else
-    match unset_by_path t cur p with
-    | UbOk bs' =>
-        if negb (bytes_eqb bs' cur) && is_408 t cur p then
-          (* as coded: the entry is removed (known); repaired: an error that leaves the buffer unchanged *)
-          if (err =? 0) && bytes_eqb res bs' then VKnown 408
-          else expect (600 + idx) ((err =? 1) && bytes_eqb res cur) [FZ 1; FB cur]
-        else expect (300 + idx) ((err =? 0) && bytes_eqb res bs') [FZ 0; FB bs']
+    match unset_by_path true t cur p with
+    | UbOk bs' => expect (300 + idx) ((err =? 0) && bytes_eqb res bs') [FZ 0; FB bs']
     | UbNotFound => expect (400 + idx) ((err =? 1) && bytes_eqb res cur) [FZ 1; FB cur]
-    | UbErr bs' => expect (500 + idx) ((err =? 1) && bytes_eqb res bs') [FZ 1; FB bs']
+    | UbErr bs' =>
+        if (err =? 1) && bytes_eqb res bs' then VOk
+        else if is_408 t cur p && (err =? 0) &&
+                match unset_by_path false t cur p with UbOk b => negb (bytes_eqb b cur) && bytes_eqb res b | _ => false end
+             then VKnown 408
+        else VBad (500 + idx) [FZ 1; FB bs']
     end
   else VBad 98 [].
 
-(* the next step starts from the implementation's buffer (equal to the model's unless the verdict was a drift) *)
+(* the next step starts from the implementation's buffer (equal to the model's unless the verdict was a drift).  An insertion
+   outside the API contract (a raw key that is no key encoding, a node of a type the container does not declare) is performed
+   by the code and by the byte model alike, but leaves a buffer that is no value any more: the history is judged up to that
+   step and ends there (the walk of the next step would read declared lengths the bounds-checked skip rejects) *)
+Definition walkable (t : Z) (bs : list Z) : bool := match skip_go t bs with Some [] => true | _ => false end.
+
 Fixpoint run_403 (n : nat) (idx t : Z) (cur : list Z) (fs : list field) : verdict :=
   match n with
   | O => match fs with [] => VOk | _ => VBad 97 [] end
@@ -84,10 +96,10 @@ Fixpoint run_403 (n : nat) (idx t : Z) (cur : list Z) (fs : list field) : verdic
     match fs with
     | FZ kind :: rest =>
       match parse_path rest with
-      | Some (p, FZ st :: FB sb :: FZ err :: FZ ex :: FB res :: rest') =>
-        match step_403 idx t cur kind p st sb err ex res with
-        | VOk => run_403 n' (idx + 1) t res rest'
-        | VDrift c => match run_403 n' (idx + 1) t res rest' with VOk => VDrift c | o => o end
+      | Some (p, FZ st :: FB sb :: FZ err :: FZ ex :: FB res :: FZ flags :: rest') =>
+        match step_403 idx t cur kind p st sb err ex res flags with
+        | VOk => if walkable t res then run_403 n' (idx + 1) t res rest' else VOk
+        | VDrift c => if walkable t res then match run_403 n' (idx + 1) t res rest' with VOk => VDrift c | o => o end else VDrift c
         | o => o
         end
       | _ => VBad 96 []
